@@ -176,6 +176,21 @@ Theorem C07_strict_time_all_histories : forall g0 g1 ops V L vc (W : nat -> nat 
 Proof. exact strict_time_all_histories. Qed.
 Print Assumptions C07_strict_time_all_histories.
 
+(* ... and WITHOUT any hypothesis on the arc stored under (0,0): along the ROUTE of every walk -- from the
+   depot over the customers up to and including the return to the depot; what is left out are only the
+   waiting moves depot -> depot that pad the walk, which are no moves of the underlying VRPTW -- every
+   node is reached inside its window, for every history of a strict object *)
+Theorem C07_strict_time_route_all_histories : forall g0 g1 ops V L vc (W : nat -> nat -> nat) (v : nat),
+  Inv g0 -> seq_init true g0 = Ok g1 ->
+  let I := mkInst (run (Seq true) ops g1) V L vc in
+  walk_assignment I W -> (v < iV I)%nat ->
+  forall s, (s < iL I)%nat ->
+    (W v 1%nat <> 0%nat /\ forall s', (1 <= s' < s)%nat -> W v s' <> 0%nat) ->
+    nlo (node_at I (W v s)) <= arrival I (W v) s /\
+    ext_le (Fin (arrival I (W v) s)) (nhi (node_at I (W v s))).
+Proof. exact strict_time_route_all_histories. Qed.
+Print Assumptions C07_strict_time_route_all_histories.
+
 (* ---------- non-vacuity ---------- *)
 (* strict class; depot D (0, inf), customers A (0,5), B (1,6); arcs D->A, A->B, B->D, A->D, D->B;
    two vehicles (the second with surcharge 3), four positions *)
@@ -261,4 +276,40 @@ Proof.
   split; [apply strict_graphb_true; vm_compute; reflexivity|].
   split; [apply windows_okb_true; vm_compute; reflexivity|].
   vm_compute. split; reflexivity.
+Qed.
+
+(* the depot self-arc overwritten with a positive travel time under a finite depot window: D (0,4), A (0,4),
+   add_arc(D,D,3) after set_depot, D<->A with travel time 0, one vehicle, five positions.  depot_self_ok is
+   false, and the padded walk D-A-D-D-D "reaches" the depot at 6 > 4 at its last position by waiting moves;
+   the route D-A-D (positions 0..2, exactly those C07_strict_time_route_all_histories speaks about) is on time *)
+Definition C07_slow_self_arc : inst :=
+  mkInst (run (Seq true)
+              [OpAddNode 10 0 0 (Fin 4); OpAddNode 11 1 0 (Fin 4); OpSetDepot 10;
+               OpAddArc 10 10 3 0; OpAddArc 10 11 0 1; OpAddArc 11 10 0 1] empty_graph)
+         1 5 [0].
+
+Example C07_slow_self_arc_route :
+  let W := pad_walks [[1]%nat] in
+  ~ depot_self_ok (ig C07_slow_self_arc) /\
+  walk_assignment C07_slow_self_arc W /\
+  map (W 0%nat) (seq 0 5) = [0; 1; 0; 0; 0]%nat /\
+  map (arrival C07_slow_self_arc (W 0%nat)) (seq 0 5) = [0; 0; 0; 3; 6] /\
+  (forall s, (s <= 2)%nat -> W 0%nat 1%nat <> 0%nat /\ forall s', (1 <= s' < s)%nat -> W 0%nat s' <> 0%nat).
+Proof.
+  assert (Hok : seq_ok C07_slow_self_arc).
+  { apply depot_set_seq_ok. split; [apply run_inv, Inv_empty|]. vm_compute. auto 10. }
+  split.
+  { intros H. assert (Hin : In ((0%nat, 0%nat), mkArc 10 10 3 0) (arcs (ig C07_slow_self_arc))) by (vm_compute; auto).
+    apply H in Hin. vm_compute in Hin. first [lia | congruence | exact Hin | (apply Hin; reflexivity)]. }
+  split.
+  { apply pad_walks_assignment; [exact Hok | vm_compute; lia | vm_compute; lia | |].
+    - constructor; [|constructor]. split; [|split].
+      + intros c [<-|[]]; vm_compute; lia.
+      + vm_compute. repeat split; auto 10.
+      + vm_compute; lia.
+    - intros n H1 H2. change (iN C07_slow_self_arc) with 2%nat in H2.
+      destruct n as [|[|n]]; try lia; vm_compute; reflexivity. }
+  split; [vm_compute; reflexivity|]. split; [vm_compute; reflexivity|].
+  intros s Hs. split; [vm_compute; lia|].
+  intros s' Hs'. assert (s' = 1%nat) by lia. subst s'. vm_compute. lia.
 Qed.
